@@ -796,7 +796,7 @@ class PreferredUnits(metaclass=PreferredUnitsMeta):  # pylint: disable=too-many-
         """set preferred units from Mapping"""
         for attribute, value in kwargs.items():
 
-            if hasattr(PreferredUnits, attribute):
+            if attribute in getattr(PreferredUnits, '__dataclass_fields__'):
                 if isinstance(value, Unit):
                     setattr(PreferredUnits, attribute, value)
                 elif isinstance(value, str):
